@@ -34,6 +34,16 @@ CHECKS = {
          "For each (inner circuit incl. lookups, inner FRI configuration with arity 2 / 4 / 8 / 16 reductions, caps 0-4, 1-3 challenges, zero-knowledge; outer configuration standard / wide / zero-knowledge): honest inner proofs are accepted natively and in-circuit and the outer proof is produced, verifies and re-exposes the inner public inputs; EVERY numeric leaf of the inner proof changed, every list node dropped-from / duplicated / swapped, inner proofs of false statements emitted by the real prover under adversarial strategies (corrupted cells, zero / constant accumulator, lenient quotient, quotient perturbed for each challenge index, chosen pow witnesses, lenient lookups), every element of the verifier data changed and other circuits' verifier data: native verify is Ok <=> the assignment derived through set_proof_with_pis_target / set_verifier_data_target passes witness generation AND satisfies the outer circuit.",
          "trusted: exact satisfaction oracle (plonkm.rs; gate evaluators are C07's), Keccak inner proofs are inadmissible in-circuit; the native verdict is computed per case so no verdict floor is needed",
          "DESIGN.md §4 C06"),
+ "C09": ("fault_enumeration",
+         "bounded exhaustive exploration of a parametric model-STARK family x trace lengths x the StarkConfig lattice with an exact independent oracle (row-by-row trace checker); every single-cell corruption, every public-input change, every proof leaf/list tamper",
+         "For a 20-definition model-STARK family defined through the public Stark trait (1-8 columns, 0/1/3 public inputs, constraint degrees 0 (no quotient), 1, 2, 3, 4 (quotient factor 3, lenient-truncation knob), 5, 9 = blowup+1; first-row, last-row, transition and every-row terms) x trace lengths 4..16 (thorough 4..64) x the full StarkConfig lattice (rate 1-3, cap 0/1(/3), 1-3 challenges, 5 reduction strategies, pow/query deviations): the honest trace for 3 public-input choices is proven and accepted; EVERY single-cell replacement {v+1, 0} (first, last, interior, wrap-around rows) and every public-input change gets exactly the verdict of the independent row-by-row trace checker - cells no constraint pins must still be accepted; every numeric leaf / list node of accepted proofs tampered under q*log2(lde) >= 40 and every proof verified under another equal-shape definition it violates is not accepted.",
+         "trusted: core.rs mod-p arithmetic, starkm::check_trace and the trace generators (self-checked at start-up), serde exactness; the alphas-reuse class (only challenge 0 checked) is not observable without a prover-side quotient knob in starky",
+         "DESIGN.md §4 C09"),
+ "C10": ("fault_enumeration",
+         "bounded exhaustive exploration of lookup declarations and cross-table-lookup topologies x trace lengths x configs with exact multiset oracles (BTreeMap counters); every single-cell corruption of looking side, looked side, frequencies; proof tampers",
+         "15 lookup declarations (1/2/3/5 looking columns crossing the helper batch size at degree 2 and 3; single / linear-combination / next-row columns; no / boolean / product filters; counter, permuted, repeated and large-value tables; two lookups in one STARK; next-row table column) x lengths 8..16 (thorough 4..64) x up to 37 configs, and 6 cross-table topologies (A->B, A,C->B, A,A->B, A,C,A->B, self, extra looking values) with 1-3 challenges through a multi-table driver that follows the crate's documented flow: honest systems are proven and accepted, and EVERY single-cell change of every table gets exactly the verdict of the oracle (sum of looking filter weights == sum of table frequencies per value; weighted multiset equality for CTLs); proof tampers and cross-declaration verification are not accepted.",
+         "trusted: starkm::check_lookups / check_ctls, the CTL driver glue (harness code following starky's documented multi-table flow), serde exactness",
+         "DESIGN.md §4 C10"),
  "C12": ("model_checking",
          "bounded exhaustive enumeration of trees (leaf counts x cap heights x widths x hashers x leaf families) against a level-by-level reference tree with the complete single-deviation negative set per position; stateless choice-point DFS over ALL fork-join orders of the tree construction (join chooser hook)",
          "For Poseidon and Keccak, MerkleTree and BatchMerkleTree (every strictly decreasing height profile of <= 3 layers) produce exactly the cap, digest layout and sibling paths of pairwise level-by-level hashing, under EVERY fork-join order of fill_subtree for trees up to 8 (thorough 16) leaves and every order with <= 2 right-first decisions for larger ones (each schedule executed twice; divergence is a machinery error). Every honest opening verifies; every opening with another leaf of the same width, another or out-of-range index, any edited sibling element, any edited element of the path's cap entry, or a truncated/extended sibling list is not accepted; equal leaves and unrelated cap entries cause no false rejection. Compressed multi-proofs decompress to exactly the original proofs for ALL index tuples of length <= 3 (4) incl. repetitions, each verifies, and no compressed sibling is unused.",
